@@ -46,6 +46,20 @@ def gen(tier, seed):
             for body in ([("continue",)], [("stepinto", 9)], [("eval", "str r7 r0 #-1")], [("eval", "str r7 r0 #-1"), ("continue",)]):
                 specs.append(("run-reset:" + p.__name__, feat, src, [], pre + body + [("reset",), ("registers",), ("print", ("mem", ("addr", 0xFFFF))), ("exit",)]))
                 specs.append(("run-reset-reset:" + p.__name__, feat, src, [], pre + body + [("reset",)] + body + [("reset",), ("reset",), ("exit",)]))
+    # writes SCATTERED over memory (different words of one 64-word block, different blocks of one 4K region, different regions,
+    # the first and last user-space word) in every order of two and in some orders of four: whatever bookkeeping `reset` might keep
+    # about what was written, every one of them comes back
+    import itertools
+    src0, _ = dbggen.p_countdown(random.Random(1))
+    spots = [0x3005, 0x3006, 0x3040, 0x3100, 0x3200, 0x3FFF, 0x4000, 0x7FFF, 0x8000, 0xFDFF]
+    for a, b in itertools.permutations(spots, 2):
+        specs.append(("scattered-writes", 0, src0, [], [("move", ("mem", ("addr", a)), 0x1111), ("move", ("mem", ("addr", b)), 0x2222), ("reset",), ("registers",), ("exit",)]))
+    rs = random.Random(seed + 5)
+    for _ in range(40 if tier == "quick" else 2000):
+        four = rs.sample(spots, 4)
+        cmds = [("move", ("mem", ("addr", a)), 0x1000 + i) for i, a in enumerate(four)]
+        cmds.insert(rs.randrange(1, 4), rs.choice([("stepinto", 3), ("eval", "st r0 #20"), ("reset",), ("continue",)]))
+        specs.append(("scattered-writes", 0, src0, [], cmds + [("reset",), ("registers",), ("exit",)]))
     return rnd, specs, fresh
 
 
